@@ -174,8 +174,14 @@ pub open spec fn part_wf(p: &Partition) -> bool {
     &&& p.segments@.len() >= 1
     &&& !last_seg(p).is_closed ==> seg_wf(last_seg(p)) && last_seg(p).start_offset + seg_msgs(last_seg(p)).len() == next_offset(p)
     &&& last_seg(p).is_closed ==> last_seg(p).end_offset + 1 == next_offset(p) && last_seg(p).start_offset <= last_seg(p).end_offset
+            && last_seg(p).unsaved_messages is None && last_seg(p).end_offset == last_seg(p).current_offset
     &&& forall|i: int| 0 <= i < p.segments@.len() - 1 ==> (#[trigger] p.segments@[i]).start_offset < next_offset(p)
     &&& last_seg(p).start_offset <= next_offset(p)
+    // the unsaved-messages counter is zero only when nothing is buffered (flush relies on it)
+    &&& (!last_seg(p).is_closed && p.unsaved_messages_count == 0) ==> seg_buf(last_seg(p)).len() == 0
+}
+pub open spec fn flush_measure(s: &Segment) -> nat {
+    if s.unsaved_messages is None { 0 } else if seg_buf(s).len() == 0 { 1 } else { 2 }
 }
 
 impl Partition {
@@ -217,4 +223,10 @@ pub proof fn assume_segment_below_4g(s: &Segment)
         // every stored message takes at least one byte, so the segment holds fewer than 2^32 messages
         // (relative offsets in index records are u32)
         seg_msgs(s).len() <= u32::MAX,
+{}
+
+// A-size64 (assumption, listed): byte counters (u64) never come within one batch header of 2^64.
+#[verifier::external_body]
+pub proof fn assume_size_below_2_64(s: &Segment)
+    ensures s.size_bytes + RETAINED_BATCH_HEADER_LEN <= u64::MAX,
 {}
